@@ -384,6 +384,7 @@ type Run struct {
 	retPaths    int
 	caseTag     string // current case split, for messages
 	safeKinds   map[string]bool // non-empty: only these kinds (assert, bounds, slice, nil, nilrecv, div, ...) are obligations
+	pendingFree []*Val // bindings of the closure whose contract is being applied
 	siteNames   bool   // sweep mode: one clause per source site (named by its source line) instead of one per kind
 }
 
@@ -1010,6 +1011,10 @@ func (r *Run) enterLoopHeader(st *State, fr *Frame, h *ssa.BasicBlock, prev *ssa
 				now := env.evalInt(c.Expr)
 				v0 := ol.variant[i]
 				r.oblige(st, fmt.Sprintf("loop%d.decreases", k), c.Props, "", And(Ge(v0, IntLit(0)), Lt(now, v0)))
+			}
+			// "loop K end requires E": E holds whenever an iteration runs to its end
+			for _, c := range r.loopClauses(fr, k, "loopend") {
+				r.oblige(st, fmt.Sprintf("loop%d.end%d", k, c.Ord), c.Props, "", env.evalBool(c.Expr))
 			}
 			// "loop K each F when E": an iteration in which E holds (at its end) has called F
 			for _, c := range r.loopClauses(fr, k, "loopeach") {
